@@ -1,7 +1,8 @@
 (* C05FragModel.v — executable model of Fragment building, encoding layout and reading back
    (mp4/fragment.go, mdat.go, tfdt.go, sizes of tfhd/tfdt/trun/traf/moof).  Definitions only.
-   Mirrors /repo after the fix commits c6a2326 (AddSampleToTrack: unknown track id is an error) and
-   fb913b8 (Encode: no optimisation when the first traf has no trun). *)
+   Mirrors /repo after the fix commits c6a2326 (AddSampleToTrack: unknown track id is an error),
+   fb913b8 (Encode: no optimisation when the first traf has no trun) and a7c3604 (SetTrunDataOffsets
+   uses the header size of a large-size mdat). *)
 From V.lib Require Import Base.
 From V.c05 Require Import C05Model.
 
@@ -223,12 +224,14 @@ Definition set_offsets (fr : frag) : frag :=
   let write_order_set := existsb (fun r => negb (tr_won r =? 0)) truns in
   if negb write_order_set && (1 <? lenN truns) then fr
   else
-    let tbl := assign_offsets (sort_won truns) (moof_size fr + md_header_size (fr_mdat fr)) in
+    (* _ = f.Mdat.Size(): marks the mdat large-size when needed (fix a7c3604) *)
+    let m := md_size_touch (fr_mdat fr) in
+    let tbl := assign_offsets (sort_won truns) (moof_size fr + md_header_size m) in
     let upd_traf t :=
       mkTraf (tf_hd t) (tf_dt t)
              (map (fun r => tr_with_doff r (lookup_off tbl (tr_won r) (tr_doff r))) (tf_truns t))
              (tf_extra t) in
-    fr_with fr (map upd_traf (fr_trafs fr)) (fr_mdat fr) (fr_next fr).
+    fr_with fr (map upd_traf (fr_trafs fr)) m (fr_next fr).
 
 (* ------------------------------------------------------------------ Fragment.Encode (structure level) *)
 (* optimisation of the FIRST traf's FIRST trun only *)
